@@ -19,9 +19,10 @@ def run(tier, seed):
     runs, nops = (2, 800) if tier == "quick" else (10, 3000)
     enginecommon.longhist_stage(v, wd, seed, "blocker", runs, nops)
     enginecommon.longhist_stage(v, wd, seed, "engine", runs, nops)
+    enginecommon.regexcache_stage(v, wd, seed, tier)
     vlib.require(rep_b["nontrivial"] > 50 and rep_e["nontrivial"] > 50, "history replay too small")
     v.assumptions += [
-        "time is modelled by explicit discards (discard_regex on every entry) and by an aggressive discard policy (1ns/0) configuration; the real clock is not otherwise controlled",
+        "in the history stages time is modelled by explicit discards (discard_regex on every entry) and by an aggressive discard policy (1ns/0); the RegexCache stage runs with real sleeps (2 ms ticks) and validates the recorded clock readings and debug reports against spec/RegexCache.tla with interval time (uncertain comparisons allow both outcomes, so machine load cannot cause an alarm)",
         "the allocator is nondeterministic in the model; on the real code the harness cannot force an address reuse, so a stale-regex defect shows only when the allocator happens to reuse (it did on the pre-fix tree)",
         "add_filter / optimize are Blocker-level (Engine exposes no rule mutation); serialize/deserialize are Engine-level; removeparam rules are kept out of the serialized pool (open finding wireDropsRemoveparam, C08)",
     ]
